@@ -58,6 +58,27 @@ func TestC12(t *testing.T) {
 	g := te.g
 	tr := interceptor.NewNamespaceNameTranslator(log.NewNoopLogger(), c12Mapping, map[string]string{})
 	ro := refOpts{ns: c12Mapping}
+	// adversarial warm-up: the FIRST things this process hands to the translator are messages of every type that cannot
+	// hold a namespace name (nexus links and failures, payloads, empty requests, ...). Any process-wide shortcut that
+	// learns "nothing to translate here" from what it has seen — keyed by something coarser than the exact type — is
+	// thereby taught the wrong answer before the per-path checks below run (the other order hides such a shortcut).
+	{
+		flw := &filler{rng: e.Rng, names: c12Names(), keys: []string{"k1"}}
+		warm := 0
+		for ti, ty := range g.Types {
+			pm, ok := reflect.New(ty.rt).Interface().(proto.Message)
+			if !ok || len(enumPaths(g, ti, nsLeaf, 1, 1)) > 0 {
+				continue
+			}
+			_, _ = tr.TranslateRequest(pm) // empty instance
+			pm2 := reflect.New(ty.rt).Interface().(proto.Message)
+			flw.fill(pm2.ProtoReflect(), 2)
+			_, _ = tr.TranslateRequest(pm2)
+			_, _ = tr.TranslateResponse(pm2)
+			warm++
+		}
+		e.Stats["warmup_namespace_free_types"] = warm
+	}
 	maxOcc, perRoot := 1, 12
 	if e.Thorough() {
 		maxOcc, perRoot = 2, 400
